@@ -21,6 +21,7 @@ import (
 	"github.com/DataDog/datadog-go/v5/statsd"
 	"github.com/platinummonkey/go-concurrency-limits/core"
 	"github.com/platinummonkey/go-concurrency-limits/limit"
+	"github.com/platinummonkey/go-concurrency-limits/limit/functions"
 	"github.com/platinummonkey/go-concurrency-limits/measurements"
 	"github.com/platinummonkey/go-concurrency-limits/metric_registry/datadog"
 	"github.com/platinummonkey/go-concurrency-limits/metric_registry/gometrics"
@@ -587,6 +588,84 @@ func c17Subjects() []c17Subject {
 				}, done
 			}},
 		)
+	}
+	// independent instances, one per goroutine: whatever the instances share behind the scenes (package-level tables,
+	// caches, default objects) is shared state all the same. Estimates are placed where the built-in tables end
+	// (1000 entries) and well beyond.
+	perG := func(name string, mk func(g int) core.Limit) c17Subject {
+		return c17Subject{name, func() ([]c17Method, func()) {
+			var inst [16]core.Limit
+			for g := range inst {
+				inst[g] = mk(g)
+			}
+			return []c17Method{
+				{"OnSampleSaturated", true, func(g, a int) { l := inst[g%16]; l.OnSample(0, int64(1000+a%7), 2*l.EstimatedLimit()+1, false) }},
+				{"OnSampleSlow", true, func(g, a int) { l := inst[g%16]; l.OnSample(0, int64(5000+a%7), 2*l.EstimatedLimit()+1, false) }},
+				{"OnSampleDrop", true, func(g, a int) { l := inst[g%16]; l.OnSample(0, int64(1000+a%7), l.EstimatedLimit(), a%16 == 0) }},
+				{"EstimatedLimit", false, func(g, a int) { _ = inst[g%16].EstimatedLimit() }},
+			}, func() {}
+		}}
+	}
+	subs = append(subs,
+		perG("gradient-instance-per-goroutine(around-1000)", func(g int) core.Limit {
+			return limit.NewGradientLimitWithRegistry("t", 990+g*70, 900, 2100, 0.9, nil, 2, -1, nil, nil)
+		}),
+		perG("gradient2-instance-per-goroutine(around-1000)", func(g int) core.Limit {
+			l, err := limit.NewGradient2Limit("t", 990+g*70, 2100, 900, nil, 0.9, 100, nil, nil)
+			if err != nil {
+				panic(err)
+			}
+			return l
+		}),
+		perG("vegas-instance-per-goroutine(around-1000)", func(g int) core.Limit {
+			return limit.NewVegasLimitWithRegistry("t", 990+g*70, nil, 2100, 0.9, nil, nil, nil, nil, nil, -1, nil, nil)
+		}),
+		c17Subject{"limit-functions(any-argument)", func() ([]c17Method, func()) {
+			sq, lg, lgf, sqf := functions.SqrtRootFunction(4), functions.Log10RootFunction(0), functions.Log10RootFloatFunction(0), functions.FixedQueueSizeFunc(4)
+			return []c17Method{
+				{"SqrtRoot", false, func(g, a int) { _ = sq(a % 4096) }},
+				{"SqrtRootBeyondTable", false, func(g, a int) { _ = sq(1000 + (a*g)%1100) }},
+				{"Log10Root", false, func(g, a int) { _ = lg(a % 4096) }},
+				{"Log10RootFloat", false, func(g, a int) { _ = lgf(float64(a%4096) + 0.5) }},
+				{"Fixed", false, func(g, a int) { _ = sqf(a) }},
+			}, func() {}
+		}},
+	)
+	// limits constructed while a started registry polls: a constructor hands its gauge suppliers to the registry, whose
+	// poller may call them at once - whatever the constructor still writes afterwards is written under the poller's
+	// eyes. Arguments are any the constructors accept, also initial values outside [min, max].
+	for _, kind := range []string{"gometrics", "datadog"} {
+		kind := kind
+		subs = append(subs, c17Subject{"construct-under-" + kind + "-poller", func() ([]c17Method, func()) {
+			r, flush, done := mkRegs(kind)
+			r.Start()
+			return []c17Method{
+				{"NewGradient2(initial-above-max)", true, func(g, a int) {
+					_, _ = limit.NewGradient2Limit(fmt.Sprintf("g2a%d", a%3), 500, 200, 20, nil, 0.2, 100, nil, r)
+				}},
+				{"NewGradient2(initial-below-min)", true, func(g, a int) {
+					_, _ = limit.NewGradient2Limit(fmt.Sprintf("g2b%d", a%3), 5, 200, 20, nil, 0.2, 100, nil, r)
+				}},
+				{"NewGradient(initial-above-max)", true, func(g, a int) {
+					_ = limit.NewGradientLimitWithRegistry(fmt.Sprintf("ga%d", a%3), 500, 20, 200, 0.2, nil, 2, 100, nil, r)
+				}},
+				{"NewGradient(initial-below-min)", true, func(g, a int) {
+					_ = limit.NewGradientLimitWithRegistry(fmt.Sprintf("gb%d", a%3), 5, 20, 200, 0.2, nil, 2, 100, nil, r)
+				}},
+				{"NewVegas(initial-above-max)", true, func(g, a int) {
+					_ = limit.NewVegasLimitWithRegistry(fmt.Sprintf("v%d", a%3), 500, nil, 200, 0.2, nil, nil, nil, nil, nil, 30, nil, r)
+				}},
+				{"NewAIMD", true, func(g, a int) { _ = limit.NewAIMDLimit(fmt.Sprintf("a%d", a%3), 10+a%5, 0.9, 1, r) }},
+				{"NewSettable", true, func(g, a int) { _ = limit.NewSettableLimit(fmt.Sprintf("s%d", a%3), 10+a%5, r) }},
+				{"NewStrategies", true, func(g, a int) {
+					_ = strategy.NewPreciseStrategyWithMetricRegistry(3+a%3, r)
+					_ = strategy.NewSimpleStrategyWithMetricRegistry(3+a%3, r)
+					_ = strategy.NewLookupPartitionWithMetricRegistry(fmt.Sprintf("p%d", a%3), 0.5, int32(1+a%3), r)
+				}},
+				{"LetThePollerTick", false, func(g, a int) { time.Sleep(200 * time.Microsecond) }},
+				{"Flush", false, func(g, a int) { flush() }},
+			}, done
+		}})
 	}
 	return subs
 }
